@@ -425,13 +425,77 @@ section, if present, is covered by exactly these keys (the negation is finding K
 def SegGood (s : MediaSegment) : Prop :=
   KSorted (preKeys s) ∧ (∃ sp, Abs (preKeys s) sp) ∧ ∀ m, s.map = some m → m.keys = preKeys s
 
-/-- consecutive key lists follow each other (the negation is finding K3) -/
-def KeyChain : List ExtXKey → List MediaSegment → Prop
+/-- keys never vanish: once a segment has keys (or the marker), the following segments have keys
+(or the marker) — true of every parsed playlist (`parsed_persist`), since `EXT-X-KEY` lines only
+replace or reset -/
+def Persist : List ExtXKey → List MediaSegment → Prop
   | _, [] => True
-  | K, s :: rest => Follows K (preKeys s) ∧ KeyChain (preKeys s) rest
+  | K, s :: rest => (K ≠ [] → preKeys s ≠ []) ∧ Persist (preKeys s) rest
+
+theorem normFormat_stripIv (k : DecryptionKey) : normFormat (stripIv k) = normFormat k := by
+  unfold stripIv normFormat
+  cases k.iv <;> rfl
+
+theorem any_isNone_strip (ks : List ExtXKey) : (ks.map stripKey).any (·.isNone) = ks.any (·.isNone) := by
+  induction ks with
+  | nil => rfl
+  | cons k rest ih => cases k <;> simp [stripKey, ih]
+
+/-- **the explicit reset**: what the writer does in front of a segment's keys, and why the key
+list then follows the announced set -/
+theorem reset_follows (W K bkeys : List ExtXKey) (sW sK : KeySpec) (out : List Line)
+    (haW : Abs W sW) (hsW : KSorted W) (haK : Abs K sK) (hK : bkeys.map stripKey = K) (hp : W ≠ [] → K ≠ []) :
+    ∃ W1 em0 sW1, resetStep (W, out) bkeys = (W1, out ++ em0) ∧ em0.foldl keyOfLine W = W1 ∧
+      (∀ l ∈ em0, isKeyLine l = true) ∧ Abs W1 sW1 ∧ KSorted W1 ∧ Follows W1 K := by
+  have hmark : K.any (·.isNone) = bkeys.any (·.isNone) := by rw [← hK]; exact any_isNone_strip bkeys
+  unfold resetStep
+  by_cases hc : (droppedKey W bkeys && !(bkeys.any (·.isNone))) = true
+  · simp only [hc, if_true]
+    simp only [Bool.and_eq_true, Bool.not_eq_true'] at hc
+    obtain ⟨hd, hnm⟩ := hc
+    refine ⟨[none], [Line.key none], .marker, rfl, (by simp [keyOfLine, updateKeys]), (by intro l hl; simp at hl; subst hl; rfl),
+      rfl, (by simp [KSorted]), Or.inr ⟨?_, (by intro k hk; simp at hk)⟩⟩
+    intro _
+    apply hp
+    intro e
+    subst e
+    simp [droppedKey] at hd
+  · have hc' : (droppedKey W bkeys && !(bkeys.any (·.isNone))) = false := by simpa using hc
+    simp only [hc', Bool.false_eq_true, if_false]
+    refine ⟨W, [], sW, (by simp), rfl, (by intro l hl; cases hl), haW, hsW, ?_⟩
+    rcases abs_marker_or K sK haK with rfl | ⟨mK, rfl, hnmK, _⟩
+    · exact Or.inl rfl
+    · right
+      have hnm : bkeys.any (·.isNone) = false := by
+        rw [← hmark, List.any_eq_false]
+        intro x hx
+        cases x with
+        | none => exact absurd rfl (hnmK none hx)
+        | some _ => simp
+      have hd : droppedKey W bkeys = false := by
+        cases hdd : droppedKey W bkeys with
+        | false => rfl
+        | true => simp [hdd, hnm] at hc'
+      refine ⟨fun e => hp (by rw [e]; simp), ?_⟩
+      intro k hk
+      simp only [droppedKey, List.any_eq_false] at hd
+      have h0 := hd (some k) hk
+      have h1 : hasFormat bkeys k = true := by
+        cases hb : hasFormat bkeys k with
+        | true => rfl
+        | false => exact absurd (by show (!hasFormat bkeys k) = true; rw [hb]; rfl) h0
+      unfold hasFormat at h1
+      obtain ⟨x, hx, hxe⟩ := List.any_eq_true.mp h1
+      cases x with
+      | none => simp at hxe
+      | some new =>
+        simp only [beq_iff_eq] at hxe
+        refine ⟨stripIv new, ?_, by rw [normFormat_stripIv]; exact hxe⟩
+        rw [← hK]
+        exact List.mem_map.mpr ⟨some new, hx, rfl⟩
 
 theorem segments_loop (bs : List MediaSegment) (W : List ExtXKey) (out : List Line) (st : PState)
-    (hW : ∃ sW, Abs W sW) (hsW : KSorted W) (hgood : ∀ s ∈ bs, SegGood s) (hchain : KeyChain W bs)
+    (hW : ∃ sW, Abs W sW) (hsW : KSorted W) (hgood : ∀ s ∈ bs, SegGood s) (hchain : Persist W bs)
     (hfresh : st.segment = {}) (havail : st.available_keys = W) :
     ∃ W' body st', foldRes writeSegStep (W, out) bs = .ok (W', out ++ body) ∧
       foldRes mediaStep st body = .ok st' ∧
@@ -443,14 +507,21 @@ theorem segments_loop (bs : List MediaSegment) (W : List ExtXKey) (out : List Li
   | cons s rest ih =>
     obtain ⟨sW, haW⟩ := hW
     obtain ⟨hsK, ⟨sK, haK⟩, _⟩ := hgood s (by simp)
-    obtain ⟨hfol, hch⟩ := hchain
-    obtain ⟨em, w1, w2, w3⟩ := segment_keys s.keys W (preKeys s) sW sK out haW hsW haK hsK rfl hfol
-    have hK : em.foldl keyOfLine st.available_keys = preKeys s := by rw [havail]; exact w2
-    obtain ⟨st1, p1, p2, p3, p4, p5, p6, p7⟩ := segment_lines st s em (preKeys s) hfresh w3 hK
+    obtain ⟨hper, hch⟩ := hchain
+    obtain ⟨W1, em0, sW1, r1, r2, r3, r4, r5, hfol⟩ := reset_follows W (preKeys s) s.keys sW sK out haW hsW haK rfl hper
+    obtain ⟨em, w1, w2, w3⟩ := segment_keys s.keys W1 (preKeys s) sW1 sK (out ++ em0) r4 r5 haK hsK rfl hfol
+    have hK : (em0 ++ em).foldl keyOfLine st.available_keys = preKeys s := by
+      rw [havail, List.foldl_append, r2]; exact w2
+    have hem : ∀ l ∈ em0 ++ em, isKeyLine l = true := by
+      intro l hl
+      rcases List.mem_append.mp hl with hl | hl
+      · exact r3 l hl
+      · exact w3 l hl
+    obtain ⟨st1, p1, p2, p3, p4, p5, p6, p7⟩ := segment_lines st s (em0 ++ em) (preKeys s) hfresh hem hK
     obtain ⟨W', body, st', q1, q2, q3, q4, q5, q6, q7⟩ :=
-      ih (preKeys s) (out ++ em ++ s.writeLines) st1 ⟨sK, haK⟩ hsK (fun s' hs' => hgood s' (by simp [hs'])) hch p3 p5
-    refine ⟨W', em ++ s.writeLines ++ body, st', ?_, ?_, ?_, q4, ?_, by rw [q6, p6], by rw [q7, p7]⟩
-    · simp only [foldRes, writeSegStep, w1]
+      ih (preKeys s) (out ++ em0 ++ em ++ s.writeLines) st1 ⟨sK, haK⟩ hsK (fun s' hs' => hgood s' (by simp [hs'])) hch p3 p5
+    refine ⟨W', em0 ++ em ++ s.writeLines ++ body, st', ?_, ?_, ?_, q4, ?_, by rw [q6, p6], by rw [q7, p7]⟩
+    · simp only [foldRes, writeSegStep, r1, w1]
       rw [q1]; simp [List.append_assoc]
     · rw [foldRes_append, p1]; exact q2
     · rw [q3, p2]; simp
@@ -571,7 +642,7 @@ theorem firstBad_implicit (seq : Nat) (segs : List MediaSegment) (h : ∀ s ∈ 
   | cons s rest => simp [firstBad, firstFilled, h s (by simp)]
 
 /-- **write, then run the parser's state machine on the written lines** -/
-theorem write_parse_wf (p : MediaPlaylist) (e : Option Nat) (wf : WF p e) (hk3 : KeyChain [] p.segments) :
+theorem write_parse_wf (p : MediaPlaylist) (e : Option Nat) (wf : WF p e) (hk3 : Persist [] p.segments) :
     ∃ lines, p.writeLines = .ok lines ∧ assembleMedia (bE e) lines = .ok p := by
   let st0 : PState := { builder := bE e }
   have hh := fold_hdr p.headerLines st0 (headerLines_isHdr p) rfl rfl
@@ -809,8 +880,6 @@ theorem segsRel_facts (a : List MediaSegment) (sps : List (KeySpec × Option Key
 /-- no key line between a segment's map and its URI (otherwise: finding K2) -/
 def NoK2 (p : MediaPlaylist) : Prop := ∀ s ∈ p.segments, ∀ m, s.map = some m → m.keys = preKeys s
 
-/-- the key histories the writer can reproduce (otherwise: finding K3) -/
-def NoK3 (p : MediaPlaylist) : Prop := KeyChain [] p.segments
 
 theorem parsed_wf (e : Option Nat) (ls : List Line) (p : MediaPlaylist) (h : assembleMedia (bE e) ls = .ok p)
     (hiv : LinesNoNum ls) (hk2 : NoK2 p) : WF p e := by
@@ -996,5 +1065,108 @@ theorem text_lines_noNum (s : Str) (ls : List Line) (h : lineItems s = ls.map Re
   unfold lineItems at h
   rw [h]
   exact List.mem_map.mpr ⟨_, hk, rfl⟩
+
+/-! ## part 10: keys never vanish in a parsed playlist -/
+
+def Mono : List (List ExtXKey) → Prop
+  | [] => True
+  | [_] => True
+  | x :: y :: r => (x ≠ [] → y ≠ []) ∧ Mono (y :: r)
+
+theorem mono_snoc (l : List (List ExtXKey)) (z : List ExtXKey) :
+    Mono (l ++ [z]) ↔ Mono l ∧ ∀ x, l.getLast? = some x → x ≠ [] → z ≠ [] := by
+  induction l with
+  | nil => simp [Mono]
+  | cons a rest ih =>
+    cases rest with
+    | nil => simp [Mono]
+    | cons b r =>
+      simp only [List.cons_append, Mono] at ih ⊢
+      rw [ih]
+      simp only [List.getLast?_cons_cons]
+      constructor
+      · rintro ⟨h1, h2, h3⟩; exact ⟨⟨h1, h2⟩, h3⟩
+      · rintro ⟨⟨h1, h2⟩, h3⟩; exact ⟨h1, h2, h3⟩
+
+def KeysMono (st : PState) : Prop :=
+  Mono (st.segments.map (·.keys)) ∧
+  ∀ x, (st.segments.map (·.keys)).getLast? = some x → x ≠ [] → st.available_keys ≠ []
+
+theorem setInsert_ne_nil (x : ExtXKey) (l : List ExtXKey) : setInsert x l ≠ [] := by
+  intro e
+  have : x ∈ setInsert x l := (mem_setInsert x x l).mpr (Or.inl rfl)
+  rw [e] at this; cases this
+
+theorem updateKeys_ne_nil (avail : List ExtXKey) (k : ExtXKey) : updateKeys avail k ≠ [] := by
+  cases k with
+  | none => simp [updateKeys]
+  | some d => simp only [updateKeys]; exact setInsert_ne_nil _ _
+
+theorem keysMono_step (st st' : PState) (l : Line) (hi : KeysMono st) (h : mediaStep st l = .ok st') : KeysMono st' := by
+  cases l <;> simp only [mediaStep] at h
+  case key k =>
+    simp only [Res.ok.injEq] at h; subst h
+    exact ⟨hi.1, fun _ _ _ => updateKeys_ne_nil _ _⟩
+  case uri u =>
+    split at h
+    · rename_i seg hb
+      simp only [Res.ok.injEq] at h; subst h
+      simp only [MediaSegmentBuilder.build] at hb
+      split at hb
+      · simp only [Res.ok.injEq] at hb; subst hb
+        simp only [KeysMono, List.map_append, List.map_cons, List.map_nil, Option.getD_some]
+        refine ⟨(mono_snoc _ _).mpr ⟨hi.1, hi.2⟩, ?_⟩
+        intro x hx hne
+        simp only [List.getLast?_append, List.getLast?_singleton, Option.some_or, Option.some.injEq] at hx
+        subst hx; exact hne
+      · cases hb
+    · cases h
+    · cases h
+  case discontinuitySequence n =>
+    split at h
+    · cases h
+    · split at h
+      · cases h
+      · simp only [Res.ok.injEq] at h; subst h; exact hi
+  all_goals first
+    | (simp only [Res.ok.injEq] at h; subst h; exact hi)
+    | (cases h)
+
+theorem keysMono_fold (ls : List Line) (st st' : PState) (hi : KeysMono st)
+    (h : foldRes mediaStep st ls = .ok st') : KeysMono st' := by
+  induction ls generalizing st with
+  | nil => simp only [foldRes, Res.ok.injEq] at h; subst h; exact hi
+  | cons l rest ih =>
+    simp only [foldRes] at h
+    cases hs : mediaStep st l with
+    | ok t => rw [hs] at h; exact ih t (keysMono_step st t l hi hs) h
+    | err => rw [hs] at h; cases h
+    | panic => rw [hs] at h; cases h
+
+theorem persist_of_mono (bs : List MediaSegment) (K : List ExtXKey) (h : Mono (K :: bs.map preKeys)) : Persist K bs := by
+  induction bs generalizing K with
+  | nil => trivial
+  | cons s rest ih =>
+    simp only [List.map_cons, Mono] at h
+    exact ⟨h.1, ih _ h.2⟩
+
+/-- **keys never vanish in a parsed playlist** -/
+theorem parsed_persist (e : Option Nat) (ls : List Line) (p : MediaPlaylist) (h : assembleMedia (bE e) ls = .ok p)
+    (hiv : LinesNoNum ls) : Persist [] p.segments := by
+  obtain ⟨st, hf, _, hb, hms, _⟩ := assembleMedia_ok (bE e) ls p h
+  have hinv := pinv_fold ls _ st (pinv_init (bE e)) hf
+  have hnn := stNoNum_fold ls _ st ⟨(by intro k hk; cases hk), (by intro s hs; cases hs)⟩ hiv hf
+  have hinit : KeysMono ({ builder := bE e } : PState) := ⟨(by simp [Mono]), (by intro x hx; simp at hx)⟩
+  have hm := keysMono_fold ls _ st hinit hf
+  rw [← hms] at hb
+  obtain ⟨_, hpk⟩ := segsBuilt_of_built p.media_sequence st.segments p.segments 0 none hb hinv.2.2 hnn.2
+  apply persist_of_mono
+  rw [hpk]
+  cases hl : st.segments.map (·.keys) with
+  | nil => trivial
+  | cons x r =>
+    have := hm.1
+    rw [hl] at this
+    exact ⟨fun hne => absurd rfl hne, this⟩
 
 end Hls.C03
